@@ -199,15 +199,26 @@ def sub_live(col, budget, seed, tier, shard, nshards):
     run_given(col, c11.schedule(tier), check_live, budget, seed, tier, "live")
 
 
+def sub_betdaq_stream(col, budget, seed, tier, shard, nshards):
+    from .. import betdaqstream
+    from ..common import run_given as _rg
+
+    _rg(col, betdaqstream.case(), betdaqstream.check, budget, seed, tier, "betdaq_stream")
+
+
 def subchecks(tier):
     q = tier == "quick"
     return [SubCheck("sim-machine", sub_machine, 1600 if q else 40000), SubCheck("order-objects", sub_objects, 2000 if q else 50000),
-            SubCheck("live", sub_live, 5000 if q else 200000)]
+            SubCheck("live", sub_live, 5000 if q else 200000), SubCheck("betdaq_stream", sub_betdaq_stream, 1500 if q else 60000)]
 
 
 def replay(case, sub=None):
     if isinstance(case, list):
         replay_trace(SimWorld, CHECKS, case)
+    elif isinstance(case, dict) and case.get("betdaq"):
+        from .. import betdaqstream
+
+        betdaqstream.check(case)
     elif "ops" in case:
         check_live(case)
     else:
